@@ -50,7 +50,7 @@ sec14.append("\nNot caught, and why: C08 `args-before-receiver` was missed at fi
 
 tab=subprocess.run(['python3','/verif/tools_seeded_table.py'],capture_output=True,text=True).stdout
 sec15=["## 15. Independent seeded changes (sub-agents given only the property text)\n",
-"Each change was produced by a fresh sub-agent that saw only the property text and its own worktree, and was confirmed by `seeded_verify.sh` in a scratch worktree (patch applies; the repository's suite passes with it; the demonstration fails with it and passes without it) before the check(s) were run against it. Files: `seeded/<id>/{patch.diff, demo.rs, demo.md, meta.json, verification.log}`. 'First verdict' is what the check said before it was strengthened. Six changes of the fourth round (C02-4 wildcard payload positions in match patterns, C03-5 working variable reassigned while in use, C06-4 arity check skipped for forward references, C08-4 literal operands folded with their effects, C10-4 `Prefix.new` on IPv6 addresses embedding an IPv4 address, C11-5 drops during panic unwinding / code pages not freed) were confirmed and drove the families named in the commit log of `/verif`, but their files lived under `/tmp` and were lost when the sandbox was restored before they had been copied here; they are not counted below. The fifth round (ids C01-4, C02-5, C03-6, C04-4, C05-4, C06-5, C07-4, C08-5, C09-4, C10-5, C11-6, C12-4, C15-4, C16-5, C20-5 and later) gave each sub-agent a focus suggestion of my own next to the property text (never anything from `/verif`); where an author re-invented an earlier change (C01-4, C05-4, C07-4, C09-4, C11-6, C12-4) a second agent was started with a different focus.\n",
+"Each change was produced by a fresh sub-agent that saw only the property text and its own worktree, and was confirmed by `seeded_verify.sh` in a scratch worktree (patch applies; the repository's suite passes with it; the demonstration fails with it and passes without it) before the check(s) were run against it. Files: `seeded/<id>/{patch.diff, demo.rs, demo.md, meta.json, verification.log}`. 'First verdict' is what the check said before it was strengthened. Six changes of the fourth round (C02-4 wildcard payload positions in match patterns, C03-5 working variable reassigned while in use, C06-4 arity check skipped for forward references, C08-4 literal operands folded with their effects, C10-4 `Prefix.new` on IPv6 addresses embedding an IPv4 address, C11-5 drops during panic unwinding / code pages not freed) were confirmed and drove the families named in the commit log of `/verif`, but their files lived under `/tmp` and were lost when the sandbox was restored before they had been copied here; they are not counted below. The fifth round (ids C01-4, C02-5, C03-6, C04-4, C05-4, C06-5, C07-4, C08-5, C09-4, C10-5, C11-6, C12-4, C15-4, C16-5, C20-5 and later) gave each sub-agent a focus line of my own next to the property text (never anything from `/verif`): first a suggestion, then, for the second, third and fourth agent on the same property, a requirement of the form 'NOT <what earlier authors did>, look at <other mechanisms named in the property's anchors>', because authors kept re-inventing earlier changes (the matched-local-used-in-place change was delivered three times, for C02, C03 and C08). Most were caught by the checks as delivered; two ended in a machinery error instead of a verdict (a textual hook lint in C16, a preflight sanity compile in C14; both are verdicts now); the misses each led to a new family, operation, oracle clause or domain value in a check and are caught now; C12-4 (two threads wrongly admitted into one critical section) stays outside what the scheduler of C12 can interleave and is caught by C16's free-running pass only. One more delivered change is not counted (C09, see there). The table's last column is computed from the stored verification logs.\n",
 tab]
 new="\n".join(sec13)+"\n"+"\n".join(sec14)+"\n"+"\n".join(sec15)
 i=s.index('## 13. What the checks found')
